@@ -33,6 +33,9 @@ type Scenario struct {
 	NonTrivial func(x *drv.World) bool
 	// AfterOp is called after each executed op of the last step (for op-specific oracles).
 	AfterOp func(x *drv.World, op model.Op) *drv.Violation
+	// Probes are state-preserving operations (calls that must be rejected) executed one after
+	// the other at every node after the node's own oracle, each followed by a full observation.
+	Probes func(x *drv.World) []model.Op
 	// PreludeObserve: run the full observation after every prelude op as well (default only at nodes).
 	ObserveAll bool
 }
@@ -145,6 +148,18 @@ func RunHistory(sc *Scenario, cfg drv.Config, prelude, hist []model.Op) (*drv.Wo
 			return x, v
 		}
 	}
+	if sc.Probes != nil {
+		for _, op := range sc.Probes(x) {
+			if v := x.Exec(op); v != nil {
+				v.Msg = "probe: " + v.Msg
+				return x, v
+			}
+			if v := x.Observe(); v != nil {
+				v.Msg = fmt.Sprintf("after probe %v: %s", op, v.Msg)
+				return x, v
+			}
+		}
+	}
 	if sc.Leaf != nil {
 		if v := sc.Leaf(x, sc, cfg, append(append([]model.Op{}, prelude...), hist...)); v != nil {
 			return x, v
@@ -158,6 +173,8 @@ func (e *explorer) record(hist []model.Op, v *drv.Violation) {
 	all := f.Hist
 	if v.Step >= 1 && v.Step <= len(all) {
 		f.OpKind = all[v.Step-1].K.String()
+	} else if v.OpKind != "" {
+		f.OpKind = "probe:" + v.OpKind
 	}
 	sig := v.Kind + "|" + f.OpKind
 	if e.opt.Signature != nil {
